@@ -25,7 +25,8 @@ SEEDED = re.compile(
     r"(HashMap::<.*>::(iter|iter_mut|keys|values|values_mut|into_keys|into_values|drain|retain)$)|"
     r"(HashSet::<.*>::(iter|drain|retain)$)|"
     r"(<(&(mut )?)?(std::collections::)?Hash(Map|Set)<.*> as IntoIterator>::into_iter$)|"
-    r"(SystemTime::now|Instant::now|RandomState::new|thread::current|thread_rng|process::id)")
+    r"(SystemTime::now|Instant::now|RandomState::new|thread::current|thread_rng|process::id)|"
+    r"(LocalKey::<.*>::(with|try_with|set|get|take|replace|with_borrow|with_borrow_mut)(::<.*>)?$)")
 # process-global mutable state: a reference to a `static` with interior mutability (or a `static mut`) in a
 # function body. What such a cell holds depends on what ran before in this process (and on other threads), so
 # a call that receives it - fetch_add, load, lock, with, get_or_init ... - is a seeded primitive too.
@@ -108,9 +109,52 @@ def run_twice(n=6, tag="determinism"):
             diffs.append("%s: in-process driver died (rc=%s)" % (name, rc))
         elif not first.startswith("repeat same=true"):
             diffs.append("%s: repeated in-process compilation of the same text: %s" % (name, first[len("repeat same=false"):].strip()))
+    # ... and the output for a text does not depend on which other text the process compiled before: every program is
+    # compiled after a sibling of itself (same length, the scalars inside its annotations and string literals changed -
+    # the worst case for anything remembered by position) and compared with a process that compiled only it
+    nsib = 0
+    for name, src in progs.items():
+        if isinstance(src, dict):
+            if len(src) != 1:
+                continue
+            src = src["main.oal"]
+        sib = sibling(src or "")
+        if not src or sib == src:
+            continue
+        fn = os.path.join(rdir, "then-" + re.sub(r"[^A-Za-z0-9_.-]", "-", name) + ".oal")
+        with open(fn, "w") as f:
+            f.write(src)
+        rc1, after, t = run([drv], stdin=sib, timeout=60, mem_gb=4, extra_env={"WASMDRV_THEN": fn, "RUST_BACKTRACE": "0"})
+        rc2, alone, t = run([drv], stdin=src, timeout=60, mem_gb=4, extra_env={"RUST_BACKTRACE": "0"})
+        nsib += 1
+        if rc1 != 0 or rc2 != 0:
+            diffs.append("%s: in-process driver died (rc=%s/%s)" % (name, rc1, rc2))
+        elif after != alone:
+            diffs.append("%s: the document differs when another text was compiled before it in the same process" % name)
+    detail["compiled-after-a-sibling"] = {"programs": nsib}
     with open(os.path.join(rdir, "cmd"), "w") as f:
         f.write("#!/bin/sh\ncd /verif && exec ./check C06 --replay %s\n" % rdir)
     return diffs, rdir, detail
+
+
+def sibling(src):
+    """Same length, same shape: digits and letters inside inline annotations (`..`), line annotations (# ..) and
+    string literals are replaced by other digits / letters."""
+    def twist(m):
+        body = m.group(0)
+        out, in_key = [], True
+        for i, ch in enumerate(body):
+            if ch.isdigit():
+                out.append(str((int(ch) + 3) % 10) if ch != "0" else "4")
+            else:
+                out.append(ch)
+        return "".join(out)
+
+    def twist_str(m):
+        return '"' + "".join(("x" if c.isalpha() and c.islower() and c != "x" else c) for c in m.group(1)) + '"'
+    s2 = re.sub(r"`[^`\n]*`", lambda m: re.sub(r'"([^"\n]*)"', twist_str, twist(m)), src)
+    s2 = re.sub(r"(?m)^#[^\n]*$", lambda m: re.sub(r'"([^"\n]*)"', twist_str, twist(m)), s2)
+    return s2
 
 
 def closure_index(M):
